@@ -403,6 +403,13 @@ def frame_independence(seed, n):
             T = PoseSE3([rng.gauss(0, sc) for _ in range(3)], rand_unit_quat(rng, near180=rng.random() < 0.3))
         else:
             T = np.array([rng.gauss(0, sc) for _ in range(ce.DIM[kind])])
+        if rng.random() < 0.2:
+            # every landmark (else every pose) of the ORIGINAL graph starts from one shared pose object; the transformed graph gets its own objects
+            grp = [v for v in g._vertices if type(v.pose) is type(g._vertices[-1].pose)]
+            if len(grp) >= 2:
+                sh_ = grp[0].pose.copy()
+                for v in grp:
+                    v.pose = sh_
         g2 = transform_graph(g, T, kind)
         evals += 1
         c1, c2 = g.calc_chi2(), g2.calc_chi2()
@@ -435,11 +442,14 @@ def frame_independence(seed, n):
             if len(exp) == 7:   # compare as rotations: q and -q are the same pose
                 if np.dot(exp[3:], got[3:]) < 0:
                     got = np.concatenate([got[:3], -got[3:]])
+            # positions carry an absolute rounding error of a few ulp of |T| per operation; everything else is O(1)
+            # R^n graphs: nothing rotates, the only error is a few ulp of |T|;  SE(n): an angular rounding error of 1e-9 rad acts on a lever arm |T|
+            at = (1e-9 * (1 + min(sc, 10.0)) + 1e4 * 2.0 ** -52 * sc) if kind in ('R2', 'R3') else 1e-5 * (1 + sc)
             if len(exp) == 3 and kind == 'SE2' and len(got) == 3:
                 dth = math.remainder(exp[2] - got[2], 2 * math.pi)
-                ok = np.allclose(exp[:2], got[:2], rtol=0, atol=1e-5 * (1 + sc)) and abs(dth) < 1e-6
+                ok = np.allclose(exp[:2], got[:2], rtol=0, atol=at) and abs(dth) < 1e-6
             else:
-                ok = np.allclose(exp, got, rtol=0, atol=1e-5 * (1 + sc))
+                ok = np.allclose(exp, got, rtol=0, atol=at)
             if not ok:
                 fails.append({'law': 'trajectory does not commute with the left transform after %d iterations' % iters, 'kind': kind, 'seed': seed, 'case': i,
                               'expected': exp.tolist(), 'got': got.tolist(), 'edge': 'graph'})
